@@ -46,3 +46,42 @@ void run_matmul() {
     if (g_verbose) std::printf(" W=[%s]", s.wlist.c_str());
     std::printf("\n");
 }
+
+template<typename Tag> struct tagc;
+template<> struct tagc<Fastor::UpLoType::General> { static constexpr char c = 'g'; static bool in(size_t, size_t) { return true; } };
+template<> struct tagc<Fastor::UpLoType::Lower> { static constexpr char c = 'l'; static bool in(size_t r, size_t c_) { return c_ <= r; } };
+template<> struct tagc<Fastor::UpLoType::Upper> { static constexpr char c = 'u'; static bool in(size_t r, size_t c_) { return r <= c_; } };
+
+template<typename T, size_t M, size_t K, size_t N, typename Lt, typename Rt>
+void run_tmatmul() {
+    arena.reset(); pool.reset();
+    T* out = sym_alloc<T>(0, M*N);
+    T* a = sym_alloc<T>(1, M*K);
+    T* b = sym_alloc<T>(2, K*N);
+    for (size_t i=0;i<M;++i) for (size_t k=0;k<K;++k) if (!tagc<Lt>::in(i,k)) a[i*K+k].h = 0;
+    for (size_t k=0;k<K;++k) for (size_t j=0;j<N;++j) if (!tagc<Rt>::in(k,j)) b[k*N+j].h = 0;
+    trace.clear(); trace.on = true;
+    Fastor::_tmatmul<T,M,K,N,Lt,Rt>(a,b,out);
+    trace.on = false;
+    auto s = summarise(0, g_verbose);
+    bool ok = true; long badcell = -1;
+    for (size_t i=0;i<M && ok;++i) for (size_t j=0;j<N;++j) {
+        Poly acc;
+        for (size_t k=0;k<K;++k) acc = padd(acc, pmul(pool.v[a[i*K+k].h], pool.v[b[k*N+j].h]));
+        if (acc != pool.v[out[i*N+j].h]) { ok=false; badcell=i*N+j; break; }
+    }
+    using V = Fastor::choose_best_simd_t<Fastor::SIMDVector<T,Fastor::simd_abi::native>, N>;
+    std::printf("tmatmul cfg=%s sz=%d lt=%c rt=%c M=%zu K=%zu N=%zu", CFGNAME,(int)sizeof(T),tagc<Lt>::c,tagc<Rt>::c,M,K,N);
+#ifdef FASTOR_MATMUL_OUTER_BLOCK_SIZE
+    std::printf(" ob=%d", (int)FASTOR_MATMUL_OUTER_BLOCK_SIZE);
+#endif
+#ifdef FASTOR_MATMUL_INNER_BLOCK_SIZE
+    std::printf(" ib=%d", (int)FASTOR_MATMUL_INNER_BLOCK_SIZE);
+#endif
+    std::printf(" | V=%d VAL=%s WSEQ=%s NW=%ld RDA=%s RDB=%s OOB=%ld ALN=%ld ORACLE=%s",
+        (int)V::Size,hex16(val_digest(out,M*N)).c_str(),hex16(s.wseq).c_str(),s.nw,
+        hex16(set_digest(s.reads[1])).c_str(),hex16(set_digest(s.reads[2])).c_str(),s.oob,s.aligned, ok?"ok":"FAIL");
+    if (!ok) std::printf(" badcell=%ld got=%s", badcell, pstr(pool.v[out[badcell].h]).substr(0,300).c_str());
+    if (g_verbose) std::printf(" W=[%s]", s.wlist.c_str());
+    std::printf("\n");
+}
